@@ -201,34 +201,139 @@ def r1(R, tus):
     P, rng, links, line = [v for v in found.values() if v[0] == regions["first row"][0]][0]
     jr = rng.get("j")
     R.check(jr is not None and jr[0] == Poly.const(1) and jr[1] == NF, "C11.R1", CP, line, "connectedpixels", "first row: j in [1, nf)", "first-row loop bounds changed: %s" % (jr,))
-    # ---- sparse
+    # ---- sparse: the guards that dominate the two places where labels are propagated, read as linear relations over i[], j[],
+    # labels[] (the names of the locals, nested ifs vs one && chain, break-first vs if/else, operand order are all free)
     for fname in ("sparse_connectedpixels",):
-        g = cfront.find_func(tus, fname, SP)
-        txt = [estr(e) for st in swalk(g.body) for e in cfront.stmt_exprs(st)]
-        defs = cfront.scalar_defs(g)  # jk = j[k]; ... jk ...  reads as j[k]
-        conds = [estr(cfront.esubst(st.cond, defs)) for st in swalk(g.body) if st.k in ("if", "while", "for") and st.cond is not None]
+        g = cfront.inlined_func(tus, fname, SP, keep=tuple(f_.name for f_ in cfront.all_funcs(tus) if f_.name.startswith("dset_")))
+        defs = cfront.scalar_defs(g)
+        cfg = g.cfg
         pj, pi, lab = g.params[2].name, g.params[1].name, g.params[5].name
-        left = [c for c in conds if "(%s[p] + 1) == (int)%s[k]" % (pj, pj) in c.replace("(int)%s[p]" % pj, "%s[p]" % pj) or "%s[p]" % pj in c and "+ 1" in c and "== " in c and "%s[p] > 0" % lab in c]
-        R.check(len(left) == 1 and "%s[p]" % pi in left[0] and "%s[k]" % pi in left[0], "C11.R1", SP, g.line, fname, "left neighbour: j[p]+1 == j[k], same row, labelled",
-                "the same-row neighbour test changed: %s" % left)
-        skip = [c for c in conds if "%s[pp]" % pj in c and "> 1" in c]
-        R.check(len(skip) == 1 and "%s[k]" % pj in skip[0], "C11.R1", SP, g.line, fname, "row-above skip while j[k] - j[pp] > 1",
-                "the walk along the row above no longer stops one column to the left: %s" % skip)
-        win = [c for c in conds if "%s[p]" % pj in c and "<=" in c and "+ 1" in c]
-        R.check(len(win) == 1 and "%s[k]" % pj in win[0], "C11.R1", SP, g.line, fname, "row-above window ends at j[k] + 1", "the window of the row above is not j-1..j+1: %s" % win)
-        bare = lambda t: t.replace(" ", "").replace("(int)", "").replace("(", "").replace(")", "")
-        rowtests = [c for c in conds if "%s[p]" % pi in c or "%s[pp]" % pi in c]
-        R.shape(bool(rowtests), "C11.R1", SP, fname, "row tests on i[p] / i[pp]")
-        R.check(any("%s[k]-1" % pi in bare(c) for c in rowtests), "C11.R1", SP, g.line, fname, "ir = i[k] - 1 (row above)", "row above is not i[k]-1: %s" % rowtests)
-        nm = [s for s in swalk(g.body) if match_pattern(s) is not None]
-        R.check(len(nm) == 1 and estr(match_pattern(nm[0])[0]) == "%s[k]" % lab and estr(match_pattern(nm[0])[1]) == "%s[p]" % lab, "C11.R1", SP, g.line, fname,
+        L = lambda arr, idx: Poly.atom(("load", "%s[%s]" % (arr, repr(idx))))
+        K = Poly.atom("k")
+        one = Poly.const(1)
+        # A. same-row neighbour:  labels[k] = labels[X]  under  j[X] + 1 == j[k], i[X] == i[k], labels[X] > 0  with X = k - 1
+        in_match = set(id(x) for s_ in swalk(g.body) if match_pattern(s_) is not None for st, x in cfront.all_exprs(s_))
+        props = [x for st, x in cfront.all_exprs(g.body) if x.k == "asg" and x.op == "=" and estr(x.a[0]) == "%s[k]" % lab and x.a[1].k == "idx"
+                 and estr(x.a[1].a[0]) == lab and x.a[1].a[1].k == "var" and id(x) not in in_match]
+        R.shape(len(props) == 1, "C11.R1", SP, fname, "the store labels[k] = labels[<previous pixel>]")
+        X = props[0].a[1].a[1].name
+        nd = crules.node_with(cfg, props[0])
+        facts = crules.rel_facts(cfg, nd.id, defs)
+        Xp = Poly.atom(X)
+        need = {"column j[X] + 1 == j[k]": crules.fact("==", L(pj, Xp) + one - L(pj, K)),
+                "row i[X] == i[k]": crules.fact("==", L(pi, Xp) - L(pi, K)),
+                "labelled labels[X] > 0": crules.fact(">", L(lab, Xp))}
+        missing = [t for t, f_ in need.items() if f_ not in facts]
+        R.check(not missing, "C11.R1", SP, props[0].line or g.line, fname, "left neighbour: j[p]+1 == j[k], same row, labelled",
+                "the same-row neighbour test changed: not guarded by %s" % missing)
+        xdefs = [(st, x) for st, x in cfront.all_exprs(g.body) if x.k == "asg" and x.a[0].k == "var" and x.a[0].name == X]
+        prev = [x for st, x in xdefs if x.op == "=" and crules.lin(x.a[1]) == K - one]
+        okx = False
+        if len(prev) == 1:
+            n1 = crules.node_with(cfg, prev[0])
+            okx = n1 is not None and n1.id in cfg.dominators(nd.id)
+            import networkx as nx
+            g2 = cfg.g.copy()
+            g2.remove_node(n1.id)
+            for st, x in xdefs:
+                if x is prev[0]:
+                    continue
+                n2 = crules.node_with(cfg, x)
+                if n2 is not None and n2.id in g2 and nd.id in g2 and nx.has_path(g2, n2.id, nd.id):
+                    okx = False
+        R.check(okx, "C11.R1", SP, g.line, fname, "previous pixel index %s = k - 1 at the same-row test" % X, "the same-row neighbour is not the previous pixel of the list")
+        # B. row above:  match(labels[k], labels[Y])  under  j[Y] <= j[k] + 1, i[Y] == i[k] - 1, labels[Y] > 0
+        nm = [s_ for s_ in swalk(g.body) if match_pattern(s_) is not None]
+        R.shape(len(nm) == 1, "C11.R1", SP, fname, "the match(labels[k], labels[<pixel above>], S) union")
+        mx, my = match_pattern(nm[0])
+        R.check(estr(mx) == "%s[k]" % lab and my.k == "idx" and estr(my.a[0]) == lab and my.a[1].k == "var", "C11.R1", SP, nm[0].line, fname,
                 "match(labels[k], labels[p], S) inside the window", "the union of the current pixel with the row above changed")
-    g = cfront.find_func(tus, "sparse_connectedpixels_splat", SP)
-    loops = [s for s in swalk(g.body) if s.k == "for" and omp.loop_header(s) is not None and omp.loop_header(s)[0] == "pp"]
-    R.shape(len(loops) == 1, "C11.R1", SP, "sparse_connectedpixels_splat", "the loop over the three pixels of the previous row")
-    h = omp.loop_header(loops[0])
-    R.check(estr(h[1]) == "(ir - 1)" and estr(h[2]) == "(ir + 1)" and h[5], "C11.R1", SP, loops[0].line, "sparse_connectedpixels_splat", "pp from ir-1 to ir+1 inclusive",
-            "the splat variant does not visit NW, N, NE: %s..%s" % (estr(h[1]), estr(h[2])))
+        Y = my.a[1].name if (my.k == "idx" and my.a[1].k == "var") else "?"
+        Yp = Poly.atom(Y)
+        inner_asg = [x for st, x in cfront.all_exprs(nm[0]) if x.k == "asg"]
+        ndm = crules.node_with(cfg, inner_asg[0]) if inner_asg else None
+        R.shape(ndm is not None, "C11.R1", SP, fname, "the union statement in the flow graph")
+        mf = crules.rel_facts(cfg, ndm.id, defs)
+        rowabove = L(pi, K) - one
+        need = {"window j[Y] <= j[k] + 1": crules.fact(">=", L(pj, K) + one - L(pj, Yp)),
+                "row i[Y] == i[k] - 1": crules.fact("==", L(pi, Yp) - rowabove),
+                "labelled labels[Y] > 0": crules.fact(">", L(lab, Yp))}
+        missing = [t for t, f_ in need.items() if f_ not in mf]
+        R.check("window j[Y] <= j[k] + 1" not in missing, "C11.R1", SP, nm[0].line, fname, "row-above window ends at j[k] + 1", "the window of the row above is not j-1..j+1")
+        R.check("row i[Y] == i[k] - 1" not in missing, "C11.R1", SP, nm[0].line, fname, "ir = i[k] - 1 (row above)", "row above is not i[k]-1 at the union")
+        R.check("labelled labels[Y] > 0" not in missing, "C11.R1", SP, nm[0].line, fname, "only labelled pixels of the row above are united", "an unlabelled pixel above is united")
+        # C. the cursor on the row above stops one column to the left:  while (j[k] - j[Z] > 1 && i[Z] == i[k] - 1) Z++
+        skips = []
+        for w in swalk(g.body):
+            if w.k not in ("while", "for") or w.cond is None:
+                continue
+            body = [b_ for b_ in (w.body.body if w.body is not None and w.body.k == "block" else [w.body]) if b_ is not None]
+            incs = [b_ for b_ in body if b_.k == "expr" and ((b_.e.k == "incdec" and b_.e.op == "++") or (b_.e.k == "asg" and b_.e.op == "+=" and estr(b_.e.a[1]) == "1"))
+                    and b_.e.a[0].k == "var"]
+            if w.k == "for" and w.inc is not None and w.inc.k == "incdec" and not body:
+                incs = [S_ for S_ in [w] if False]
+            if len(body) != 1 or len(incs) != 1:
+                continue
+            Z = incs[0].e.a[0].name
+            Zp = Poly.atom(Z)
+            conj = []
+
+            def conjuncts(e):
+                if e.k == "bin" and e.op == "&&":
+                    conjuncts(e.a[0])
+                    conjuncts(e.a[1])
+                else:
+                    conj.append(e)
+            conjuncts(w.cond)
+            fs = set()
+            for c_ in conj:
+                r_ = crules.rel_lin(c_, True, defs)
+                if r_ is not None:
+                    fs.add((r_[0], r_[1].key()))
+            if crules.fact(">", L(pj, K) - L(pj, Zp) - one) in fs:
+                skips.append((w, Z, fs))
+        R.check(len(skips) == 1 and crules.fact("==", L(pi, Poly.atom(skips[0][1])) - rowabove) in skips[0][2], "C11.R1", SP, g.line, fname, "row-above skip while j[k] - j[pp] > 1",
+                "the walk along the row above no longer stops one column to the left (found %d such loops)" % len(skips))
+    # splat: the union statement sits in a loop whose variable moves the united cell over the three cells above the current one:
+    # (flat index of the other cell) - (flat index of the current cell) runs from -jdim-1 to -jdim+1 in steps of one, whatever the
+    # spelling (flat index, row pointers, < or <=)
+    g = cfront.inlined_func(tus, "sparse_connectedpixels_splat", SP, keep=tuple(f_.name for f_ in cfront.all_funcs(tus) if f_.name.startswith("dset_")))
+    nm = [s_ for s_ in swalk(g.body) if match_pattern(s_) is not None]
+    R.shape(len(nm) == 1, "C11.R1", SP, "sparse_connectedpixels_splat", "the match(<current>, <above>, S) union")
+    encl = [l for l in swalk(g.body) if l.k == "for" and any(s_ is nm[0] for s_ in swalk(l.body))]
+    R.shape(len(encl) >= 2 and omp.loop_header(encl[-1]) is not None, "C11.R1", SP, "sparse_connectedpixels_splat", "the loop over the three pixels of the previous row")
+    main, inner = encl[0], encl[-1]
+    h = omp.loop_header(inner)
+    defs = cfront.scalar_defs(g, within=main)
+    defs.pop(h[0], None)
+    mx, my = match_pattern(nm[0])
+
+    def flat(e):
+        e2 = cfront.esubst(e, defs, 5)
+        if e2.k != "idx":
+            return None, None
+        base, subs = cfront.subscripts(e2)
+        if base is None or len(subs) != 1:
+            return None, None
+        return base.name, crules.lin(subs[0], defs)
+    bx, ix = flat(mx)
+    by, iy = flat(my)
+    R.shape(bx is not None and by is not None and bx == by and ix is not None and iy is not None, "C11.R1", SP, "sparse_connectedpixels_splat",
+            "both cells of the union as flat indices into the same scratch image")
+    rel = iy - ix
+    iv = h[0]
+    first = crules.lin(h[1], defs)
+    last = crules.lin(h[2], defs) - (Poly.const(0) if h[5] else Poly.const(1))
+    # row stride of the scratch image: the factor of the row number i[k] in the flat index of the current cell
+    rowatoms = [a_ for a_ in ix.atoms() if isinstance(a_, tuple) and a_[0] == "load" and a_[1].startswith(g.params[1].name + "[")]
+    R.shape(len(rowatoms) == 1 and ix.degree_in(rowatoms[0]) == 1, "C11.R1", SP, "sparse_connectedpixels_splat", "current cell = (i[k] + 1) * stride + j[k] + 1")
+    JD = ix.coeff(rowatoms[0], 1)
+    okr = h[3] == 1 and rel.degree_in(iv) == 1 and rel.coeff(iv, 1) == Poly.const(1) and not (first is None or last is None)
+    if okr:
+        r0, r1_ = rel.subs({iv: first}), rel.subs({iv: last})
+        okr = r0 == -JD - Poly.const(1) and r1_ == -JD + Poly.const(1)
+    R.check(okr, "C11.R1", SP, inner.line, "sparse_connectedpixels_splat", "pp from ir-1 to ir+1 inclusive",
+            "the splat variant does not visit NW, N, NE: offsets %s for %s in %s..%s" % (rel, iv, estr(h[1]), estr(h[2])))
 
 
 # --------------------------------------------------------------------------------------------------
